@@ -65,6 +65,10 @@ def run(ctx: Ctx) -> None:
     check_vectors_and_spaces(ctx, py, rs)
     check_views(ctx, py)
     check_trace_register_copy(ctx, py)
+    # the snapshot register blob's (name, width) table is duplicated between pce500/emulator.py and the Rust snapshot module: order,
+    # names and widths must agree (rule shared with C16/C08)
+    from .c16 import layout
+    layout(ctx, py, rs)
     ctx.extra["exhaustive"] = True
 
 
